@@ -22,10 +22,15 @@ def find_block(E, qual, start_anchor, end_anchor, occurrence=0):
     def visit(stmts):
         for i, s in enumerate(stmts):
             if _text(E, module, s).startswith(start_anchor):
-                for j in range(i, len(stmts)):
-                    if end_anchor in _text(E, module, stmts[j]):
-                        found.append(stmts[i:j + 1])
-                        break
+                if isinstance(end_anchor, int):
+                    # a fixed number of statements from the anchor on (whatever the later ones look like)
+                    if i + end_anchor <= len(stmts):
+                        found.append(stmts[i:i + end_anchor])
+                else:
+                    for j in range(i, len(stmts)):
+                        if end_anchor in _text(E, module, stmts[j]):
+                            found.append(stmts[i:j + 1])
+                            break
             for attr in ("body", "orelse", "finalbody"):
                 sub = getattr(s, attr, None)
                 if isinstance(sub, list) and sub and isinstance(sub[0], ast.stmt):
